@@ -271,6 +271,9 @@ class ResourcePeriodicallyUnavailable(ResourceConstraint):
                         conds.append(end_task_i <= self.start)
                     if self.end is not None:
                         conds.append(start_task_i >= self.end)
+                    # busy intervals moved to the past (unscheduled optional task,
+                    # worker not selected) are not concerned
+                    conds.append(end_task_i < 0)
 
                     if len(conds) > 1:
                         self.set_z3_assertions(z3.Or(*conds))
@@ -543,6 +546,9 @@ class ResourcePeriodicallyInterrupted(ResourceConstraint):
                     mask.append(end_task_i <= self.start)
                 if self.end is not None:
                     mask.append(start_task_i >= self.end)
+                # busy intervals moved to the past (unscheduled optional task,
+                # worker not selected) are not concerned
+                mask.append(end_task_i < 0)
 
                 if len(mask) > 1:
                     self.set_z3_assertions(z3.Or(*mask))
